@@ -45,15 +45,40 @@ def main():
             write_if_changed(os.path.join(GEN, name), text)
             status[name] = "ok"
         except SystemExit as e:
-            status[guess_output(f)] = "extraction failed: %s" % (e,)
+            status[guess_output(f)] = fall_back(guess_output(f), "%s" % (e,))
         except Exception as e:  # a source file moved, unreadable, …
-            status[guess_output(f)] = "extraction failed: %r" % (e,)
+            status[guess_output(f)] = fall_back(guess_output(f), "%r" % (e,))
     with open(os.path.join(ROOT, "work", "extract_status.json"), "w") as fh:
         json.dump(status, fh, indent=1)
-    bad = {k: v for k, v in status.items() if v != "ok"}
+    if "--bless" in sys.argv:
+        # record the current (successfully regenerated) fragments as the hand-kept fallback copies
+        os.makedirs(FALLBACK, exist_ok=True)
+        for name, st in status.items():
+            if st == "ok":
+                write_if_changed(os.path.join(FALLBACK, name), open(os.path.join(GEN, name)).read())
+    bad = {k: v for k, v in status.items() if v != "ok" and not v.startswith("fallback")}
+    for k, v in status.items():
+        if v.startswith("fallback"):
+            print("%s: %s" % (k, v))
     for k, v in bad.items():
         print("%s: %s" % (k, v))
     sys.exit(1 if bad else 0)
+
+FALLBACK = os.path.join(ROOT, "bin", "fragments", "fallback")
+
+def fall_back(name, reason):
+    """The translator does not recognise the shape of the source (a rewrite it was not written
+    for).  The fragment is then NOT regenerated: the hand-kept copy bin/fragments/fallback/<name>
+    (the fragment as last blessed by the maintainer of /verif) is used, and the tie between it and
+    the code is carried by the correspondence check alone (DESIGN.md 11.2, 'fragments'): bin/check
+    records this in the evidence and the harness's systematic probes (keyword classification,
+    truthiness dictionary, CLI flag table, script commands) compare the fragment's content with
+    the code's behaviour."""
+    src = os.path.join(FALLBACK, name)
+    if not os.path.exists(src):
+        return "extraction failed: %s" % reason
+    write_if_changed(os.path.join(GEN, name), open(src).read())
+    return "fallback: source shape not recognised by the translator (%s); hand-kept fragment used" % reason
 
 def guess_output(fragment_path):
     """the Generated/*.lean file a fragment writes (named in its source as the returned file name)"""
